@@ -19,6 +19,7 @@ EXPLANATION = (
 RULE = "one obligation per wrapped-call site, per set-sleeping site and gate, per writer of the counter, per error construction, per state mark"
 TRUSTED = ["tokio::time::Sleep", "pin-project projection", "rustc MIR construction"]
 ASSUMPTIONS = ["should_reconnect / max_attempts / retry_on_reconnect / delay_for_attempt are the public configuration names"]
+CONFIG_CRATES = ["tower_resilience_reconnect"]
 TECHNIQUE = "static analysis of built MIR: edge dominance over the poll state machine, who-writes on the attempt counter, value-flow of returned errors"
 
 CRATE = "tower_resilience_reconnect"
